@@ -352,14 +352,17 @@ class Runner(IOOpsMixin):
             rec["exc"] = [type(e).__name__, norm_msg(e, self.root)]
             rec["where"] = self._where(e)
         finally:
+            if tracer is not None:
+                tracer.fault = None      # a line fault planned for this attempt that did not fire must not fire in a later attempt
             if uninstall_trace:
                 sys.settrace(None)
                 self.stats["line_events"] += tracer.steps
         out = self.stdout.stop()
         writes, reads = self.seams.end_op()
-        if len(self.seams.fault_fired) > fired_before and rec["status"] != "ok":
-            injected = injected or self.seams.fault_fired[-1][0]
-        for f in self.seams.fault_fired[fired_before:]:
+        mine = [f for f in self.seams.fault_fired if tuple(f[1:4]) == (client, i, attempt)]
+        if mine and rec["status"] != "ok":
+            injected = injected or mine[-1][0]
+        for f in mine:
             site = f"{f[0]}@{kind}"
             self.stats["fault_sites"][site] = self.stats["fault_sites"].get(site, 0) + 1
         if injected in ("cancel", "alloc-fail"):
@@ -467,7 +470,8 @@ class Runner(IOOpsMixin):
     def _injected_now(self):
         """did an injected fault fire during the current attempt (so its failure is the fault's, not cij's)?"""
         c = self.seams.ctx
-        if len(self.seams.fault_fired) > getattr(c, "fired0", 0):
+        me = (getattr(c, "client", None), getattr(c, "op", None), getattr(c, "attempt", None))
+        if any(tuple(f[1:4]) == me for f in self.seams.fault_fired):      # fault_fired is shared by the threads of a segment: only MY faults count
             return True
         tr = getattr(c, "tracer", None)
         return tr is not None and tr.fault_site is not None and tr.fired_in == (getattr(c, "client", None), getattr(c, "op", None), getattr(c, "attempt", None))
